@@ -73,12 +73,24 @@ inductive Jet
   | sha256Init | sha256Add32 | sha256Finalize | verify | eq256 | add32 | eq32
   deriving DecidableEq
 
+/-- values, as far as the fragments see them: words are kept as numbers with their width, a bit
+(`Value::u1`) is `inl unit` / `inr unit` -/
+inductive Val where
+  | unit
+  | inl (v : Val)
+  | inr (v : Val)
+  | pair (a b : Val)
+  | word (bits n : Nat)
+
+/-- `Value::u1` -/
+def Val.bit (b : Bool) : Val := if b then .inr .unit else .inl .unit
+
 /-- the constructors of `CoreConstructible`/`WitnessConstructible` that `serialize.rs` and the hiding
-wrapper call, for a node type `N` and a root type `H` -/
+wrapper call, for a node type `N` and a root type `H`; a witness node carries `Option<Value>` -/
 structure Alg (N : Type) (H : Type) where
   iden : N
   unit : N
-  witness : N
+  witness : Option Val → N
   drop : N → N
   comp : N → N → N
   pair : N → N → N
@@ -92,47 +104,48 @@ structure Alg (N : Type) (H : Type) where
 section fragments
 variable {N H : Type} (A : Alg N H)
 
-def keyF (x : Nat) : N :=
-  A.comp (A.pair (A.pair (A.word 256 x) (A.jet .sigAllHash)) A.witness) (A.jet .bip0340Verify)
+def keyF (x : Nat) (w : Option Val) : N :=
+  A.comp (A.pair (A.pair (A.word 256 x) (A.jet .sigAllHash)) (A.witness w)) (A.jet .bip0340Verify)
 def afterF (n : Nat) : N := A.comp (A.word 32 n) (A.jet .checkLockHeight)
 def olderF (n : Nat) : N := A.comp (A.word 16 n) (A.jet .checkLockDistance)
 def computeSha256 (w : N) : N :=
   A.comp (A.comp (A.pair (A.jet .sha256Init) w) (A.jet .sha256Add32)) (A.jet .sha256Finalize)
 def verifyBexp (input bexp : N) : N := A.comp (A.comp input bexp) (A.jet .verify)
-def sha256F (x : Nat) : N :=
-  verifyBexp A (A.pair (A.word 256 x) (computeSha256 A A.witness)) (A.jet .eq256)
+def sha256F (x : Nat) (w : Option Val) : N :=
+  verifyBexp A (A.pair (A.word 256 x) (computeSha256 A (A.witness w))) (A.jet .eq256)
 def andF (l r : N) : N := A.comp l r
-def selector : N := A.pair A.witness A.unit
-def orF (l r : N) : N := A.comp (selector A) (A.case (A.drop l) (A.drop r))
-def summand (child : N) : N :=
-  A.comp (selector A) (A.case (A.drop (A.word 32 0)) (A.drop (A.comp child (A.word 32 1))))
+def selector (w : Option Val) : N := A.pair (A.witness w) A.unit
+def orF (l r : N) (w : Option Val) : N := A.comp (selector A w) (A.case (A.drop l) (A.drop r))
+def summand (child : N) (w : Option Val) : N :=
+  A.comp (selector A w) (A.case (A.drop (A.word 32 0)) (A.drop (A.comp child (A.word 32 1))))
 def addF (sum s : N) : N := A.comp (A.comp (A.pair sum s) (A.jet .add32)) (A.drop A.iden)
 def threshVerify (sum : N) (k : Nat) : N := verifyBexp A (A.pair (A.word 32 k) sum) (A.jet .eq32)
-/-- `sum = summand(subs[0]); for sub in subs[1..] { sum = add(sum, summand(sub)) }` -/
-def sumF : N → List N → N
-  | acc, [] => acc
-  | acc, s :: ss => sumF (addF A acc (summand A s)) ss
+/-- `sum = summand(subs[0], bits[0]); for (sub, bit) in subs[1..].zip(bits[1..]) { sum = add(sum,
+summand(sub, bit)) }` -/
+def sumF : N → List N → List (Option Val) → N
+  | acc, s :: ss, b :: bs => sumF (addF A acc (summand A s b)) ss bs
+  | acc, _, _ => acc
 /-- `serialize::threshold` (panics on the empty list; the model returns `unit` there) -/
-def thresholdF (k : Nat) : List N → N
-  | [] => A.unit
-  | s :: ss => threshVerify A (sumF A (summand A s) ss) k
+def thresholdF (k : Nat) : List N → List (Option Val) → N
+  | s :: ss, b :: bs => threshVerify A (sumF A (summand A s b) ss bs) k
+  | _, _ => A.unit
 
-def leafF (t x : Nat) : N :=
+def leafF (t x : Nat) (w : Option Val) : N :=
   if t = 0 then A.fail x
-  else if t = 2 then keyF A x
+  else if t = 2 then keyF A x w
   else if t = 3 then afterF A x
   else if t = 4 then olderF A x
-  else if t = 5 then sha256F A x
+  else if t = 5 then sha256F A x w
   else A.unit
 
 mutual
 /-- `Policy::serialize_no_witness` for any node type: `commit()` runs it on real nodes,
 `Policy::cmr` on `ConstructibleCmr` -/
 def compile : P → N
-  | .leaf t x => leafF A t x
+  | .leaf t x => leafF A t x none
   | .and l r => andF A (compile l) (compile r)
-  | .or l r => orF A (compile l) (compile r)
-  | .thr k s => thresholdF A k (compileL s)
+  | .or l r => orF A (compile l) (compile r) none
+  | .thr k s => thresholdF A k (compileL s) (List.replicate (lenL s) none)
 def compileL : List P → List N
   | [] => []
   | p :: ps => compile p :: compileL ps
@@ -144,7 +157,7 @@ end fragments
 structure Hom {N M H : Type} (A : Alg N H) (B : Alg M H) (h : N → M) : Prop where
   iden : h A.iden = B.iden
   unit : h A.unit = B.unit
-  witness : h A.witness = B.witness
+  witness : ∀ w, h (A.witness w) = B.witness w
   drop : ∀ x, h (A.drop x) = B.drop (h x)
   comp : ∀ x y, h (A.comp x y) = B.comp (h x) (h y)
   pair : ∀ x y, h (A.pair x y) = B.pair (h x) (h y)
@@ -156,25 +169,29 @@ structure Hom {N M H : Type} (A : Alg N H) (B : Alg M H) (h : N → M) : Prop wh
 section hom
 variable {N M H : Type} {A : Alg N H} {B : Alg M H} {h : N → M}
 
-theorem Hom.summand (hh : Hom A B h) (c : N) : h (summand A c) = summand B (h c) := by
+theorem Hom.summand (hh : Hom A B h) (c : N) (w : Option Val) :
+    h (summand A c w) = summand B (h c) w := by
   simp only [Pol.summand, selector, hh.comp, hh.pair, hh.case, hh.drop, hh.word, hh.witness, hh.unit]
 
-theorem Hom.sumF (hh : Hom A B h) : ∀ (ss : List N) (acc : N),
-    h (sumF A acc ss) = Pol.sumF B (h acc) (ss.map h)
-  | [], _ => rfl
-  | s :: ss, acc => by
+theorem Hom.sumF (hh : Hom A B h) : ∀ (ss : List N) (bs : List (Option Val)) (acc : N),
+    h (sumF A acc ss bs) = Pol.sumF B (h acc) (ss.map h) bs
+  | [], _, _ => by simp only [Pol.sumF, List.map]
+  | _ :: _, [], _ => by simp only [Pol.sumF, List.map]
+  | s :: ss, b :: bs, acc => by
     simp only [Pol.sumF, List.map]
-    rw [Hom.sumF hh ss]
+    rw [Hom.sumF hh ss bs]
     simp only [addF, hh.comp, hh.pair, hh.jet, hh.drop, hh.iden, hh.summand]
 
-theorem Hom.thresholdF (hh : Hom A B h) (k : Nat) : ∀ (ss : List N),
-    h (thresholdF A k ss) = Pol.thresholdF B k (ss.map h)
-  | [] => hh.unit
-  | s :: ss => by
+theorem Hom.thresholdF (hh : Hom A B h) (k : Nat) : ∀ (ss : List N) (bs : List (Option Val)),
+    h (thresholdF A k ss bs) = Pol.thresholdF B k (ss.map h) bs
+  | [], _ => by simp only [Pol.thresholdF, List.map]; exact hh.unit
+  | _ :: _, [] => by simp only [Pol.thresholdF, List.map]; exact hh.unit
+  | s :: ss, b :: bs => by
     simp only [Pol.thresholdF, List.map, threshVerify, verifyBexp, hh.comp, hh.pair, hh.jet,
       hh.word, hh.sumF, hh.summand]
 
-theorem Hom.leafF (hh : Hom A B h) (t x : Nat) : h (leafF A t x) = leafF B t x := by
+theorem Hom.leafF (hh : Hom A B h) (t x : Nat) (w : Option Val) :
+    h (leafF A t x w) = leafF B t x w := by
   unfold Pol.leafF
   split
   · exact hh.fail x
@@ -193,7 +210,7 @@ mutual
 with `A` = real nodes, `B` = roots only and `h` = "root of" this is
 `commit().cmr() = Policy::cmr()` -/
 theorem constructible_hom (hh : Hom A B h) : ∀ (p : P), h (compile A p) = compile B p
-  | .leaf t x => by simp only [compile]; exact hh.leafF t x
+  | .leaf t x => by simp only [compile]; exact hh.leafF t x none
   | .and l r => by
     simp only [compile, andF, hh.comp, constructible_hom hh l, constructible_hom hh r]
   | .or l r => by
@@ -237,7 +254,7 @@ end Hid
 def hidAlg {N H : Type} (A : Alg N H) (C : Alg H H) (r : N → H) : Alg (Hid N H) H where
   iden := .node A.iden
   unit := .node A.unit
-  witness := .node A.witness
+  witness := fun w => .node (A.witness w)
   drop := fun x => match x with
     | .node n => .node (A.drop n)
     | .hidden h => .hidden (C.drop h)
@@ -263,16 +280,18 @@ def hidAlg {N H : Type} (A : Alg N H) (C : Alg H H) (r : N → H) : Alg (Hid N H
   jet := fun j => .node (A.jet j)
 
 /-- what makes `r` "the root of": it commutes with every constructor, an assertion has the root of
-the `case` it stands for -/
+the `case` it stands for, witness values are not committed to -/
 structure RootHom {N H : Type} (A : Alg N H) (C : Alg H H) (r : N → H) : Prop extends Hom A C r where
   assertl : ∀ x h, r (A.assertl x h) = C.case (r x) h
   assertr : ∀ h y, r (A.assertr h y) = C.case h (r y)
+  /-- the root of a witness node does not depend on the value in it -/
+  witness_irrel : ∀ w, C.witness w = C.witness none
 
 theorem hid_hom {N H : Type} {A : Alg N H} {C : Alg H H} {r : N → H} (hr : RootHom A C r) :
     Hom (hidAlg A C r) C (Hid.root r) where
   iden := hr.iden
   unit := hr.unit
-  witness := hr.witness
+  witness := fun w => hr.witness w
   drop := fun x => by cases x <;> simp [hidAlg, Hid.root, hr.drop]
   comp := fun x y => by cases x <;> cases y <;> simp [hidAlg, Hid.root, hr.comp]
   pair := fun x y => by cases x <;> cases y <;> simp [hidAlg, Hid.root, hr.pair]
@@ -295,21 +314,51 @@ def item : Hid N H → Thresh.Item
   | .node n => (cost n, true)
   | .hidden _ => (Thresh.MAX, false)
 
+/-- the `or` selector bit: the cheaper side when both are satisfied, the satisfied one otherwise -/
+def takeRight : Hid N H → Hid N H → Bool
+  | .node l, .node r => decide (cost r < cost l)
+  | .hidden _, .node _ => true
+  | _, _ => false
+
+/-- `selected_node_indices`: `indices.sort_by_key(|i| costs[i]); indices.truncate(k)` -/
+def selIdx (k : Nat) (items : List Thresh.Item) : List Nat :=
+  ((items.zipIdx.mergeSort (fun a b => Thresh.le a.1 b.1)).take k).map (·.2)
+
+/-- `witness_bits[i] = Some(u1(selected_node_indices.contains(i)))` -/
+def selBits (sel : List Nat) (n : Nat) : List (Option Val) :=
+  (List.range n).map fun i => some (Val.bit (sel.contains i))
+
+/-- the values the satisfier hands out when it has them (`lookup_signature`, `lookup_sha256`) -/
+structure Secrets where
+  sigVal : Nat → Val
+  preVal : Nat → Val
+
+def leafWit (W : Secrets) (a : Avail) (t x : Nat) : Option Val :=
+  if t = 2 then (if a.sig x then some (W.sigVal x) else none)
+  else if t = 5 then (if a.pre x then some (W.preVal x) else none)
+  else none
+
+variable (W : Secrets)
+
 mutual
-/-- `satisfy_internal`: the program with the unsatisfied parts "hidden"; witness values are not
-part of the model (the `or` and threshold selector bits, signatures, preimages) -/
+/-- `satisfy_internal`: the program with the unsatisfied parts "hidden" and the witness nodes
+populated (signature, preimage, the selector bit of every `or`, the selection bits of every
+threshold) -/
 def satisfyInternal (a : Avail) : P → Hid N H
   | .leaf t x =>
-    if t = 0 then (leafF (hidAlg A C r) 0 x).hide r
-    else Hid.okIf r (leafSat a t x) (leafF (hidAlg A C r) t x)
+    if t = 0 then (leafF (hidAlg A C r) 0 x none).hide r
+    else Hid.okIf r (leafSat a t x) (leafF (hidAlg A C r) t x (leafWit W a t x))
   | .and l r' => andF (hidAlg A C r) (satisfyInternal a l) (satisfyInternal a r')
   | .or l r' =>
     let L := satisfyInternal a l
     let R := satisfyInternal a r'
-    Hid.okIf r (L.isNode || R.isNode) (orF (hidAlg A C r) L R)
+    Hid.okIf r (L.isNode || R.isNode)
+      (orF (hidAlg A C r) L R (some (Val.bit (takeRight cost L R))))
   | .thr k s =>
     let subs := satisfyInternalL a s
-    Hid.okIf r (Thresh.selectedOk k (subs.map (item cost))) (thresholdF (hidAlg A C r) k subs)
+    let items := subs.map (item cost)
+    Hid.okIf r (Thresh.selectedOk k items)
+      (thresholdF (hidAlg A C r) k subs (selBits (selIdx k items) subs.length))
 def satisfyInternalL (a : Avail) : List P → List (Hid N H)
   | [] => []
   | p :: ps => satisfyInternal a p :: satisfyInternalL a ps
